@@ -14,17 +14,23 @@ import (
 // WSPaths are the upgrade paths of a WebSocket server connection: poller-driven, blocking with the HTTP
 // parser's read loop, blocking engine + transferred to the poller, std net/http server with the
 // connection's own read loop, std server + transferred to the poller.
-var WSPaths = []string{"nb", "blocking-parser", "blocking-transfer", "std-readloop", "std-transfer"}
+var WSPaths = []string{"nb", "blocking-parser", "blocking-transfer", "std-readloop", "std-transfer", "std-handleread"}
 
 // WSPathHasTLS reports whether TLS can be terminated by the engine on that path.
-func WSPathHasTLS(path string) bool { return path != "std-readloop" && path != "std-transfer" }
+func WSPathHasTLS(path string) bool { return path != "std-readloop" && path != "std-transfer" && path != "std-handleread" }
 
 // StartWSServer starts a server that upgrades every request with u on the given path and returns its
 // address and a stop function.
 func StartWSServer(path string, useTLS bool, mode string, u *websocket.Upgrader, tune func(*nbhttp.Config)) (addr string, stop func(), err error) {
 	transfer := path == "blocking-transfer" || path == "std-transfer"
+	manualRead := path == "std-handleread"
 	handler := http.HandlerFunc(func(w http.ResponseWriter, r *http.Request) {
-		if transfer {
+		if manualRead {
+			// the application starts the read loop itself, with a buffer size of its choice
+			if wc, err := u.UpgradeWithoutHandlingReadForConnFromSTDServer(w, r, nil); err == nil {
+				go wc.HandleRead(61)
+			}
+		} else if transfer {
 			_, _ = u.UpgradeAndTransferConnToPoller(w, r, nil)
 		} else {
 			_, _ = u.Upgrade(w, r, nil)
@@ -32,7 +38,7 @@ func StartWSServer(path string, useTLS bool, mode string, u *websocket.Upgrader,
 	})
 	conf := nbhttp.Config{Network: "tcp", NPoller: 2, Handler: handler}
 	ApplyHTTPMode(&conf, mode)
-	std := path == "std-readloop" || path == "std-transfer"
+	std := path == "std-readloop" || path == "std-transfer" || path == "std-handleread"
 	if !std {
 		if useTLS {
 			conf.AddrsTLS = []string{"127.0.0.1:0"}
